@@ -1,12 +1,20 @@
 (* C09 - iterating while the store changes.  Statements only.
    The model (KV/Cursor.v) carries every cursor fix-up loop of iwkv.c (after the repairs recorded in
    known_findings.json) and is compared with the implementation's cursor bookkeeping (cnpos, skip_next, copy) after
-   every mutation by the correspondence check.  PROVED here are the list-level facts that make those fix-ups right:
-   under the index adjustment each loop applies, a cursor keeps designating the same record.  NOT proved
-   (stated here as the open goal): `scan_stable` - for every interleaving of cursor moves with puts/deletes, the rest
-   of the scan is the old rest minus deleted keys plus inserted keys ahead; and `fresh_inv` - no cursor copy is stale. *)
+   every mutation by the correspondence check.
+   PROVED for all chains, cursors, keys and values (no bound):
+   - C09_put_keeps_cursor: whatever a successful put does to the nodes (overwrite, insertion into a node, new node in
+     front / behind, split with the record going to the lower or to the upper half), the fix-up leaves every cursor
+     that stood on a record on a record with the same key, with a fresh copy of its node and the same pending step;
+     the value it reads is unchanged unless the put overwrote exactly that key;
+   - C09_scan_stable_put: the forward scan that remains for such a cursor after the put is the scan that remained
+     before, with the new record inserted if and only if its key lies ahead of the cursor (scan_stable, puts);
+   - the list-level and cursor-level facts for removals (a cursor beside a removed record keeps its record, a cursor on
+     the removed record reads the successor with skip_next = 1).
+   NOT proved (open): scan_stable for deletes that unlink a node, backward scans after a put, and `fresh_inv` for
+   cursors parked on the head/tail block. *)
 Require Import List ZArith Lia. Import ListNotations.
-Require Import IW.KV.Node IW.KV.Cursor IW.KV.Cursor_proofs.
+Require Import IW.KV.Node IW.KV.Spec IW.KV.Node_proofs IW.KV.Cursor IW.KV.Cursor_proofs IW.KV.Stable_proofs IW.KV.ScanStable_proofs.
 
 (* _sblk_addkv/_sblk_addkv2: `if (cnpos >= idx) cnpos++` keeps the cursor on its record, for every node content,
    insertion slot and cursor slot *)
@@ -73,6 +81,69 @@ Theorem C09_fix_remove_current :
     cursor_read K V c' cur' = nth_error r (S p) /\ c_skip cur' = 1%Z.
 Proof. exact fix_remove_current. Qed.
 Print Assumptions C09_fix_remove_current.
+
+(* ---- a put and the cursors that are open on the database ---- *)
+Theorem C09_put_keeps_cursor :
+  forall (K V : Type) (cmp : K -> K -> comparison) (IDXNUM PIVOT : nat) (upd : V -> V -> option V),
+    1 <= IDXNUM ->
+    forall fresh (c : chain K V) k v noover newok c' ch cur id p k0 v0,
+    PIVOT <= IDXNUM -> ids_unique K V c -> ~ In fresh (map fst c) ->
+    put_chain K V cmp IDXNUM PIVOT upd fresh c k v noover newok = (POk, c', ch) ->
+    node_cursor K V c cur id p -> cursor_read K V c cur = Some (k0, v0) ->
+    let cur' := fix_cursor K V IDXNUM PIVOT c' ch cur in
+    (exists id' p', node_cursor K V c' cur' id' p') /\ c_skip cur' = c_skip cur /\
+    exists v', cursor_read K V c' cur' = Some (k0, v') /\ (v' = v0 \/ cmp k0 k = Eq).
+Proof. exact put_keeps_cursor. Qed.
+Print Assumptions C09_put_keeps_cursor.
+
+(* the remaining forward scan of a cursor on a record = everything behind that record in scan order *)
+Theorem C09_scan_is_rest :
+  forall (K V : Type) (cmp : K -> K -> comparison) (IDXNUM PIVOT : nat),
+    (forall a b : K, cmp a b = CompOpp (cmp b a)) -> 1 <= PIVOT < IDXNUM ->
+    forall (c : chain K V) cur id p k0 v0 fuel,
+    NodeInv K V cmp IDXNUM c -> ids_unique K V c -> node_cursor K V c cur id p -> c_skip cur = 0%Z ->
+    cursor_read K V c cur = Some (k0, v0) -> length (flat K V c) < fuel ->
+    scan_next K V IDXNUM fuel c cur = after K V cmp (flat K V c) k0.
+Proof. exact scan_is_after. Qed.
+Print Assumptions C09_scan_is_rest.
+
+(* scan_stable for puts: comparator hypotheses are those proved for the byte-key and the integer-key comparators of the
+   code in KV/Keys_proofs.v *)
+Theorem C09_scan_stable_put :
+  forall (K V : Type) (cmp : K -> K -> comparison) (IDXNUM PIVOT : nat) (upd : V -> V -> option V),
+    (forall a b c : K, cmp a b = Lt -> cmp b c = Eq -> cmp a c = Lt) ->
+    (forall a b : K, cmp a b = CompOpp (cmp b a)) ->
+    (forall a b c : K, cmp a b = Lt -> cmp b c = Lt -> cmp a c = Lt) ->
+    1 <= PIVOT < IDXNUM ->
+    forall fresh (c : chain K V) k v noover newok c' ch cur id p k0 v0 fuel,
+    NodeInv K V cmp IDXNUM c -> ids_unique K V c -> ~ In fresh (map fst c) ->
+    put_chain K V cmp IDXNUM PIVOT upd fresh c k v noover newok = (POk, c', ch) ->
+    node_cursor K V c cur id p -> c_skip cur = 0%Z -> cursor_read K V c cur = Some (k0, v0) ->
+    S (length (flat K V c)) < fuel ->
+    let cur' := fix_cursor K V IDXNUM PIVOT c' ch cur in
+    exists nv, (s_get K V cmp (flat K V c) k = None -> nv = v) /\
+      scan_next K V IDXNUM fuel c' cur' =
+      match cmp k0 k with
+      | Lt => s_put K V cmp (scan_next K V IDXNUM fuel c cur) k nv
+      | _ => scan_next K V IDXNUM fuel c cur
+      end.
+Proof. exact scan_stable_put. Qed.
+Print Assumptions C09_scan_stable_put.
+
+(* Non-vacuity: a full node (IDXNUM = 4, PIVOT = 2) with a cursor on its second record; the put of key 25 splits the
+   node; hypotheses hold and the remaining scan gains exactly the new record. *)
+Definition ex_c : chain nat nat := [(1, [(10,0);(20,0);(30,0);(40,0)]); (2, [(50,0)])].
+Definition ex_cur : cursor := at_node nat nat [] 1 [(10,0);(20,0);(30,0);(40,0)] [(2, [(50,0)])] 1 PNone.
+Definition ex_put := put_chain nat nat Nat.compare 4 2 (fun _ v => Some v) 3 ex_c 25 7 false true.
+Example C09_scan_stable_example :
+  node_cursor nat nat ex_c ex_cur 1 1 /\ cursor_read nat nat ex_c ex_cur = Some (20, 0) /\
+  fst (fst ex_put) = POk /\
+  scan_next nat nat 4 9 ex_c ex_cur = [(30,0);(40,0);(50,0)] /\
+  scan_next nat nat 4 9 (snd (fst ex_put)) (fix_cursor nat nat 4 2 (snd (fst ex_put)) (snd ex_put) ex_cur)
+    = [(25,7);(30,0);(40,0);(50,0)].
+Proof.
+  split; [eexists; split; [reflexivity|split; reflexivity]|]. vm_compute. repeat split.
+Qed.
 
 (* Non-vacuity: a cursor on slot 3 of a node; a record inserted at slot 1 moves it to slot 4, same record. *)
 Example C09_insert_example :
